@@ -160,6 +160,18 @@ def eval_stacks(case):
     for a0 in (case['a0'],):
         for a1 in range(16):
             SA = mk([a0, a1], mode in ('sparse', 'mixed-sparse-first'))
+            # the SAME object on both sides (aliased operands): the pairwise matrix of a stack with itself
+            want_self = [[gf2.symp(x, y, n) for y in (a0, a1)] for x in (a0, a1)]
+            got_self = np.asarray(bs_prod(SA, SA))
+            res['evals'] += 1
+            if not (got_self.shape == (2, 2)
+                    and got_self.astype(float).tolist() == [[float(t) for t in r] for r in want_self]):
+                nbad += 1
+                if len(res['violations']) < 3:
+                    res['violations'].append({
+                        'key': {'part': 'stacks', 'kind': 'stack-self-product-differs', 'mode': mode},
+                        'detail': {'A': [gf2.int_to_pauli_string(t, n) for t in (a0, a1)], 'B': 'the same object',
+                                   'expected': want_self, 'got': got_self.tolist()}})
             for b0 in range(16):
                 for b1 in range(16):
                     SB = mk([b0, b1], mode in ('sparse', 'mixed'))
